@@ -147,3 +147,95 @@ Definition nonblocking (callee : string) : bool :=
 
 (* unknown rows discharged by a justified annotation: (function, prefix of the message). None needed on the clean tree. *)
 Definition discharged_unknowns : list (string * string) := [].
+
+(* ---------------------------------------------------------------------- *)
+(* Atomicity granularity.  The Pool / ME / GME models execute each of the operations below as ONE atomic
+   segment; that is justified only while the source performs the listed accesses inside ONE critical-section
+   instance of the named lock (DESIGN 2.2).  Checked on the `scoped` table (accesses per root-function execution). *)
+
+Inductive mkind := MRead (* read or container read *) | MWrite (* write or container write *) | MAny.
+
+Record member := mkMember {
+  m_type : string; m_field : string; m_kind : mkind;
+  m_unlocked_ok : bool   (* a row of this member may also run with NO section of the lock open (separate, justified path) *)
+}.
+
+Record group := mkGroup {
+  g_name : string;
+  g_props : list string;     (* property ids whose model segment this group backs *)
+  g_fn : string;             (* root function: the group is decided per execution of it, callees included *)
+  g_lock : string;
+  g_all : bool;              (* every access to a lock-protected (not InitOnly, not Atomic) field within the root counts as a member *)
+  g_members : list member;   (* explicit members: each must occur inside the section *)
+  g_why : string
+}.
+
+Definition rd t f := mkMember t f MRead false.
+Definition wr t f := mkMember t f MWrite false.
+
+Definition groups : list group := [
+  mkGroup "pool.newSubConn" ["C03"] "gcpBalancer.newSubConn" GB true
+    [rd "gcpBalancer" "scRefs"; rd "gcpBalancer" "scStates"; wr "gcpBalancer" "scRefs"; wr "gcpBalancer" "scStates"; wr "gcpBalancer" "scRefList"]
+    "Pool.Model new_subconn: size re-check, no-channel-connecting guard and registration of the new channel are one step (pool size <= maxSize)";
+  mkGroup "pool.refresh" ["C07"] "gcpBalancer.refresh" GB true
+    [rd "subConnRef" "refreshing"; wr "subConnRef" "refreshing"; wr "gcpBalancer" "refreshingScRefs"]
+    "Pool.Model refresh: test-and-set of refreshing and registration of the replacement are one step (at most one replacement per channel)";
+  mkGroup "pool.UpdateSubConnState" ["C01"; "C04"; "C07"; "C08"] "gcpBalancer.UpdateSubConnState" GB true
+    [wr "gcpBalancer" "scStates"; wr "gcpBalancer" "picker"; wr "subConnRef" "subConn"]
+    "Pool.Model sc_state: swap, state table, fallback clean-up, aggregate state and picker publication are one step";
+  mkGroup "pool.UpdateClientConnState" ["C20"; "C03"] "gcpBalancer.UpdateClientConnState" GB true
+    [wr "gcpBalancer" "addrs"; rd "gcpBalancer" "scRefs"]
+    "Pool.Model resolver: address update, first configuration and (re)creation of an empty pool are one step";
+  mkGroup "pool.bindSubConn" ["C01"; "C08"] "gcpBalancer.bindSubConn" GB true
+    [rd "gcpBalancer" "scRefs"; rd "gcpBalancer" "affinityMap"; wr "gcpBalancer" "affinityMap"]
+    "Pool.Model bind: membership test, first-writer-wins insertion and the affinity count are one step";
+  mkGroup "pool.unbindSubConn" ["C01"; "C08"] "gcpBalancer.unbindSubConn" GB true
+    [rd "gcpBalancer" "affinityMap"; wr "gcpBalancer" "affinityMap"]
+    "Pool.Model unbind: lookup, count decrement and removal are one step";
+  mkGroup "pool.getReadySubConnRef" ["C01"; "C08"] "gcpBalancer.getReadySubConnRef" GB true
+    [rd "gcpBalancer" "affinityMap"; rd "gcpBalancer" "scStates"; rd "gcpBalancer" "fallbackMap"; wr "gcpBalancer" "fallbackMap"]
+    "Pool.Model keyed lookup: home lookup, readiness test and creation of the fallback mapping are one step";
+  mkGroup "pool.pick.leastBusy" ["C02"] "gcpPicker.getAndIncrementSubConnRef" GP false
+    [rd "subConnRef" "streamsCnt"; mkMember "subConnRef" "streamsCnt" MWrite true]
+    "Pool.Model pick: the scan for the minimum stream count and the increment of the chosen channel are one step per picker (two picks on one picker never choose the same minimum); the round-robin BIND path increments without scanning, outside p.mu, by design";
+  mkGroup "pool.detectUnresponsive" ["C07"] "gcpPicker.detectUnresponsive" GB false
+    [rd "subConnRef" "lastResp"; rd "subConnRef" "refreshCnt"]
+    "Pool.Model done(deadline exceeded): lastResp and the back-off exponent are read as one snapshot";
+  mkGroup "gme.pickConn" ["C15"; "C16"] "GCPMultiEndpoint.pickConn" GME true
+    [rd "GCPMultiEndpoint" "mes"; rd "GCPMultiEndpoint" "defaultName"; rd "multiEndpoint" "current"; rd "GCPMultiEndpoint" "pools"]
+    "GME.Model route: choosing the MultiEndpoint, reading its current endpoint and looking up that endpoint's pool are one step (the pool of the current endpoint exists)";
+  mkGroup "gme.UpdateMultiEndpoints" ["C16"; "C15"] "GCPMultiEndpoint.UpdateMultiEndpoints" GME true
+    [rd "GCPMultiEndpoint" "dialFunc"; rd "GCPMultiEndpoint" "pools"; wr "GCPMultiEndpoint" "pools"; wr "GCPMultiEndpoint" "mes"; wr "GCPMultiEndpoint" "defaultName"]
+    "GME.Model update: validation against the current pools, dialling (the read of dialFunc stands for the calls), registration and removal are one step (atomic rejection, no pool dialled twice)";
+  mkGroup "gme.Close" ["C16"; "C15"] "GCPMultiEndpoint.Close" GME true
+    [rd "GCPMultiEndpoint" "pools"]
+    "GME.Model close: every pool registered at that moment is closed";
+  mkGroup "gme.notify" ["C15"] "monitoredConn.notify" GME true
+    [rd "GCPMultiEndpoint" "mes"]
+    "GME.Model availability report: delivered to every MultiEndpoint of one configuration";
+  mkGroup "me.SetEndpoints" ["C13"; "C14"] "multiendpoint.multiEndpoint.SetEndpoints" ME true
+    [rd "multiEndpoint" "endpoints"; wr "multiEndpoint" "endpoints"; mkMember "multiEndpoint" "current" MAny false]
+    "ME.Model set_endpoints: list replacement, priorities and the re-evaluation of current are one step";
+  mkGroup "me.SetEndpointAvailability" ["C13"; "C14"] "multiendpoint.multiEndpoint.SetEndpointAvailability" ME true
+    [rd "multiEndpoint" "endpoints"; wr "endpoint" "status"; mkMember "multiEndpoint" "current" MAny false]
+    "ME.Model set_avail: state change, timer bookkeeping and the re-evaluation of current are one step";
+  mkGroup "me.recoveryTimer" ["C13"; "C14"] "multiendpoint.multiEndpoint.scheduleUnavailable$1" ME true
+    [rd "endpoint" "lastChange"; wr "endpoint" "status"; mkMember "multiEndpoint" "current" MAny false]
+    "ME.Model timer(recovery): staleness test, state change and the re-evaluation of current are one step";
+  mkGroup "me.switchTimer" ["C13"; "C14"] "multiendpoint.multiEndpoint.switchFromTo$1" ME true
+    [rd "multiEndpoint" "future"; rd "multiEndpoint" "endpoints"; wr "multiEndpoint" "current"]
+    "ME.Model timer(switch): re-validation of the delayed switch and the assignment of current are one step"
+].
+
+(* Counters: fields updated by read-modify-write from many goroutines.  Only the listed sync/atomic
+   operations are allowed anywhere (fresh objects excepted); in particular no Load..Store pair and no plain access. *)
+Definition counters : list (string * string * list aop * list string * string) := [
+  ("subConnRef", "streamsCnt", [OpAdd; OpLoad], ["C02"],
+     "Pool.Model streams: +1 per placed pick, -1 per completion, never reset: the value is the number of calls in flight");
+  ("subConnRef", "affinityCnt", [OpAdd; OpLoad], ["C01"],
+     "Pool.Model affinity count: +1 per bind, -1 per unbind");
+  ("subConnRef", "deCalls", [OpAdd; OpLoad; OpStore0], ["C07"],
+     "Pool.Model deadline-exceeded counter: +1 per such completion, reset to 0 by a response or the refresh swap");
+  ("gcpBalancer", "rrRefId", [OpAdd], ["C09"],
+     "Pool.Model round-robin cursor: every BIND pick advances it by exactly one (consecutive picks get consecutive slots)")
+].
